@@ -8,7 +8,9 @@ PROP = "C05"
 LEVEL = "fault_enumeration"
 TECHNIQUE = "IR sanitizer (whole-IR invariant monitor + protobuf round trip) after every apply(), plus fault injection into every patch callback with a hook-side snapshot of the return-edge cache"
 RULE = (
-    "every seeded rewrite scenario (as C01) is applied once with the IR "
+    "every seeded rewrite scenario (as C01; PE modules with a "
+    "peSafeExceptionHandlers table, 20% with inserted functions) is applied "
+    "once with the IR "
     "sanitizer run on the result (blocks inside intervals, no new overlaps, "
     "CFG endpoints / symbol referents / expression symbols / every node in "
     "every aux table attached, zero-sized blocks only in documented cases, "
